@@ -226,9 +226,9 @@ func (w *World) Bulk(batch []*Rec, csize int) {
 	stored := 0
 	pos := 0
 	for pos < len(batch) {
-		end := pos + csize
-		if csize <= 0 || end > len(batch) {
-			end = len(batch)
+		end := len(batch)
+		if csize > 0 && csize < len(batch)-pos {
+			end = pos + csize
 		}
 		members := batch[pos:end]
 		exp, wants := w.expectBatch(members, -1)
